@@ -169,7 +169,6 @@ func VerifHarness_C10_O3() {
 // not-yet-effective validator).
 func VerifHarness_C10_O4() { VerifHarness_C09_O1() }
 
-
 // C10/O5 — every block's peer-set hash is the hash of the set effective at its
 // round-received: GetFrame takes the peers of the round's set, NewBlockFromFrame
 // hashes exactly those.  Two-entry validator-set history (change effective from
